@@ -1,10 +1,495 @@
 package cluster
 
-// Profile-specific sampling and final rules (C13, C14, C18, ...). Filled in
-// per property; the base versions do nothing.
+import (
+	"fmt"
+	"time"
 
-func (r *Runner) sampleProfile() {}
+	"github.com/hashicorp/raft"
 
-func (r *Runner) finalProfile() {}
+	"verif/harness/sim"
+)
 
-func (r *Runner) execMacro(a Action) {}
+// ---------------------------------------------------------------------------
+// Profile state
+
+type leaseCut struct {
+	in       *sim.Instance
+	t0       int64 // ms: instant the cut took effect
+	lease    time.Duration
+	steppedAt int64
+	probed   bool
+	term     uint64
+}
+
+type isoRec struct {
+	in     *sim.Instance
+	term   uint64
+	since  int64
+	tn     int // TimeoutNow requests delivered to it while isolated
+	ahead  bool
+}
+
+type rejoinRec struct {
+	at      int64
+	leader  string
+	term    uint64
+	servers []string
+	checked bool
+}
+
+// execMacro runs the structured macro-actions.
+func (r *Runner) execMacro(a Action) {
+	w := r.W
+	switch a.Op {
+	case "cutleader":
+		// cut the leader from a majority: it keeps a.N voters (fewer than it
+		// needs) and, if a.Arg==1, every non-voter.
+		li, L := r.leader()
+		if L == nil {
+			return
+		}
+		cfg := r.cfgOf(L)
+		var voters, nonvoters []string
+		for _, s := range cfg.Servers {
+			if string(s.ID) == r.ids[li] {
+				continue
+			}
+			if s.Suffrage == raft.Voter {
+				voters = append(voters, string(s.ID))
+			} else {
+				nonvoters = append(nonvoters, string(s.ID))
+			}
+		}
+		quorum := (len(voters)+1)/2 + 1
+		keep := a.N
+		if keep > quorum-2 {
+			keep = quorum - 2
+		}
+		if keep < 0 {
+			keep = 0
+		}
+		side := map[string]bool{r.ids[li]: true}
+		for i := 0; i < keep && i < len(voters); i++ {
+			side[voters[i]] = true
+		}
+		if a.Arg == 1 {
+			for _, n := range nonvoters {
+				side[n] = true
+			}
+		}
+		w.Mu.Lock()
+		for _, x := range r.ids {
+			for _, y := range r.ids {
+				if side[x] != side[y] {
+					r.cut[[2]string{x, y}] = true
+				}
+			}
+		}
+		r.lastFaultMs = w.Now()
+		r.leaseCuts = append(r.leaseCuts, &leaseCut{in: L, t0: w.Now(), lease: L.Conf.LeaderLeaseTimeout, term: L.R.CurrentTerm()})
+		w.EvLocked(sim.Event{Kind: "cutleader", Srv: L.ID(), S: fmt.Sprint(keys(side))})
+		w.Mu.Unlock()
+		r.feat("cutleader")
+		if len(side) > 1 {
+			r.feat("cutleader-keeps-a-peer")
+		}
+		if a.Arg == 1 && len(nonvoters) > 0 {
+			r.feat("cutleader-keeps-nonvoters")
+		}
+	case "isolatemin":
+		// isolate a minority of servers from everybody else (they stay
+		// connected to each other)
+		iso := map[string]bool{}
+		for _, i := range a.Set {
+			iso[r.ids[i%len(r.ids)]] = true
+		}
+		w.Mu.Lock()
+		for _, x := range r.ids {
+			for _, y := range r.ids {
+				if iso[x] != iso[y] {
+					r.cut[[2]string{x, y}] = true
+				}
+			}
+		}
+		r.lastFaultMs = w.Now()
+		w.EvLocked(sim.Event{Kind: "isolatemin", S: fmt.Sprint(keys(iso))})
+		w.Mu.Unlock()
+		for id := range iso {
+			if in := r.liveByID(id); in != nil {
+				r.W.Mu.Lock()
+				r.isolated[id] = &isoRec{in: in, term: in.R.CurrentTerm(), since: w.Now()}
+				r.W.Mu.Unlock()
+			}
+		}
+		r.feat("isolate-minority")
+	case "rejoin":
+		// heal and remember what the majority looked like
+		li, L := r.leader()
+		w.Mu.Lock()
+		r.cut = map[[2]string]bool{}
+		rec := &rejoinRec{at: w.Now()}
+		if L != nil {
+			rec.leader, rec.term = r.ids[li], L.R.CurrentTerm()
+		}
+		for id, ir := range r.isolated {
+			d := ir.in.DiskLocked()
+			// "log not ahead": nothing beyond what the leader holds
+			if L != nil && d.Last() > L.DiskLocked().Last() {
+				ir.ahead = true
+			}
+			if L != nil && ir.in.R.CurrentTerm() > rec.term {
+				ir.ahead = true
+			}
+			if !ir.ahead && !ir.in.Conf.PreVoteDisabled {
+				rec.servers = append(rec.servers, id)
+			}
+			if w.Now()-ir.since >= 5*int64(r.maxHB()/time.Millisecond) {
+				r.Feat["isolation>=5-election-timeouts"]++
+			}
+		}
+		r.isolated = map[string]*isoRec{}
+		if rec.leader != "" && len(rec.servers) > 0 {
+			r.rejoins = append(r.rejoins, rec)
+		}
+		w.EvLocked(sim.Event{Kind: "rejoin", S: fmt.Sprint(rec.servers), Srv: rec.leader, Term: rec.term})
+		r.lastFaultMs = w.Now()
+		w.Mu.Unlock()
+		r.feat("rejoin")
+	case "stalesuffix":
+		// leader alone appends entries nobody else sees; the rest moves on,
+		// snapshots and compacts; then everything is healed.
+		li, L := r.leader()
+		if L == nil {
+			return
+		}
+		r.exec(Action{Op: "isolate", Srv: li})
+		r.doApply(L, max(1, a.N), 0)
+		w.Advance(time.Duration(4*r.P.HBms[li])*time.Millisecond+r.maxHB()*3, r.sample)
+		if _, L2 := r.leader(); L2 != nil && L2 != L {
+			r.doApply(L2, max(1, a.Arg), 0)
+			w.Advance(30*time.Millisecond, r.sample)
+			r.doSnapshot(L2)
+			w.Advance(30*time.Millisecond, r.sample)
+			r.feat("stale-suffix-built")
+		}
+		r.exec(Action{Op: "heal"})
+	case "lagcompact":
+		// one follower is cut while the others write, snapshot and compact
+		fi := r.resolve(-2)
+		r.exec(Action{Op: "isolate", Srv: fi})
+		if _, L := r.leader(); L != nil {
+			r.doApply(L, max(2, a.N), 0)
+			w.Advance(40*time.Millisecond, r.sample)
+			r.doSnapshot(L)
+			w.Advance(40*time.Millisecond, r.sample)
+			r.feat("lagging-follower-behind-compaction")
+		}
+		if a.Arg == 1 {
+			if in := r.live(fi); in != nil {
+				in.Crash()
+			}
+		}
+		r.exec(Action{Op: "heal"})
+	case "aftershutdown":
+		// every API call on a server whose Shutdown completed
+		in := r.live(r.resolve(a.Srv))
+		if in == nil {
+			return
+		}
+		done := make(chan struct{})
+		go func() { _ = in.R.Shutdown().Error(); close(done) }()
+		w.Advance(time.Duration(10*r.P.RPCms+1000)*time.Millisecond, nil)
+		select {
+		case <-done:
+		default:
+			return
+		}
+		r.afterShutdownCalls(in)
+		r.feat("calls-after-shutdown")
+	}
+}
+
+func (r *Runner) liveByID(id string) *sim.Instance {
+	for i, x := range r.ids {
+		if x == id {
+			return r.live(i)
+		}
+	}
+	return nil
+}
+
+func (r *Runner) cfgOf(in *sim.Instance) raft.Configuration {
+	r.W.Mu.Lock()
+	defer r.W.Mu.Unlock()
+	c, _ := sim.LatestCfgInDisk(in.DiskLocked(), false)
+	return c
+}
+
+// afterShutdownCalls issues the whole client API on a shut-down server; every
+// call must resolve, the queue-based ones with ErrRaftShutdown (C17/R2).
+func (r *Runner) afterShutdownCalls(in *sim.Instance) {
+	type call struct {
+		name string
+		f    func() error
+	}
+	srv := r.W.Servers[r.ids[0]]
+	calls := []call{
+		{"Apply", func() error { return in.R.Apply(sim.EncodePayload(r.W.NewPayload(), 0), 0).Error() }},
+		{"Barrier", func() error { return in.R.Barrier(0).Error() }},
+		{"VerifyLeader", func() error { return in.R.VerifyLeader().Error() }},
+		{"AddVoter", func() error { return in.R.AddVoter(srv.ID, srv.Addr, 0, 0).Error() }},
+		{"RemoveServer", func() error { return in.R.RemoveServer(srv.ID, 0, 0).Error() }},
+		{"Snapshot", func() error { return in.R.Snapshot().Error() }},
+		{"LeadershipTransfer", func() error { return in.R.LeadershipTransfer().Error() }},
+		{"BootstrapCluster", func() error { return in.R.BootstrapCluster(raft.Configuration{}).Error() }},
+		{"GetConfiguration", func() error { return in.R.GetConfiguration().Error() }},
+	}
+	for _, c := range calls {
+		c := c
+		op := r.newOp("after-shutdown:"+c.name, in, 0, "")
+		go func() { r.finish(op, c.f(), 0, nil) }()
+	}
+}
+
+// ---------------------------------------------------------------------------
+// per-millisecond sampling
+
+func (r *Runner) sampleProfile() {
+	w := r.W
+	now := w.Now()
+	// C13/R1: isolated leaders step down within the lease bound
+	for _, lc := range r.leaseCuts {
+		if lc.in.Dead() {
+			continue
+		}
+		st := lc.in.R.State()
+		bound := lc.t0 + int64(2*lc.lease/time.Millisecond) + 10 + 2
+		if lc.steppedAt == 0 {
+			if st != raft.Leader {
+				lc.steppedAt = now
+				r.Feat["lease-stepdown"]++
+			} else if now > bound {
+				w.Violate("C13", "R1", "C13/R1/isolated-leader-keeps-leadership-beyond-twice-the-lease",
+					"%s lost its voter majority at %d ms (lease %v) and is still Leader at %d ms (bound %d ms)", lc.in.ID(), lc.t0, lc.lease, now, bound)
+				lc.steppedAt = now
+			}
+		} else if st == raft.Leader && r.stillCut(lc.in.ID()) && lc.in.R.CurrentTerm() == lc.term {
+			w.Violate("C13", "R1", "C13/R1/leader-again-without-majority", "%s stepped down at %d ms and is Leader of the same term %d again at %d ms while still cut off", lc.in.ID(), lc.steppedAt, lc.term, now)
+		}
+		if !lc.probed && lc.steppedAt != 0 && now >= bound+3 && st != raft.Shutdown {
+			lc.probed = true
+			payload := w.NewPayload()
+			op := r.newOp("apply", lc.in, payload, "lease-probe")
+			in := lc.in
+			go func() {
+				f := in.R.Apply(sim.EncodePayload(payload, 0), 0)
+				err := f.Error()
+				var idx uint64
+				var resp any
+				if err == nil {
+					idx, resp = f.Index(), f.Response()
+				}
+				r.finish(op, err, idx, resp)
+				if err == nil && r.stillCut(in.ID()) {
+					w.Violate("C13", "R1", "C13/R1/write-accepted-after-lease-expiry", "%s accepted a write (index %d) after it had lost its majority and its lease had expired", in.ID(), idx)
+				}
+			}()
+		}
+	}
+	// C14/R1: an isolated pre-vote server never raises its term
+	w.Mu.Lock()
+	isos := make([]*isoRec, 0, len(r.isolated))
+	for _, ir := range r.isolated {
+		isos = append(isos, ir)
+	}
+	w.Mu.Unlock()
+	for _, ir := range isos {
+		if ir.in.Dead() || ir.in.Conf.PreVoteDisabled {
+			continue
+		}
+		if t := ir.in.R.CurrentTerm(); t > ir.term+uint64(w.O.TimeoutNowsTo(ir.in.ID(), ir.since)) {
+			w.Violate("C14", "R1", "C14/R1/isolated-server-raised-its-term", "%s (pre-vote enabled) isolated since %d ms with term %d has term %d at %d ms", ir.in.ID(), ir.since, ir.term, t, now)
+			ir.term = t
+		}
+	}
+	// C14/R2: after the rejoin the majority's leader and term are unchanged
+	for _, rj := range r.rejoins {
+		window := int64(10 * r.maxHB() / time.Millisecond)
+		if rj.checked || now < rj.at+window {
+			continue
+		}
+		rj.checked = true
+		L := r.liveByID(rj.leader)
+		if L == nil {
+			continue
+		}
+		if L.R.State() != raft.Leader || L.R.CurrentTerm() != rj.term {
+			if r.faultSince(rj.at) {
+				continue // something else happened in the window
+			}
+			w.Violate("C14", "R2", "C14/R2/rejoining-server-disrupted-the-leader", "servers %v rejoined at %d ms with logs not ahead; leader %s of term %d is now %v in term %d (%s)", rj.servers, rj.at, rj.leader, rj.term, L.R.State(), L.R.CurrentTerm(), r.describe())
+			continue
+		}
+		for _, id := range rj.servers {
+			in := r.liveByID(id)
+			if in == nil {
+				continue
+			}
+			_, lid := in.R.LeaderWithID()
+			if in.R.State() != raft.Follower || string(lid) != rj.leader || in.R.CurrentTerm() != rj.term {
+				if r.faultSince(rj.at) {
+					continue
+				}
+				w.Violate("C14", "R2", "C14/R2/rejoined-server-is-not-a-follower-of-the-leader", "%s rejoined at %d ms; %d ms later it is %v in term %d following %q (leader %s, term %d)", id, rj.at, now-rj.at, in.R.State(), in.R.CurrentTerm(), lid, rj.leader, rj.term)
+			} else {
+				r.Feat["rejoined-as-follower"]++
+			}
+		}
+	}
+	// C18/R3: a follower advertises only a real leader of its current term
+	if r.P.Profile == "notify" || now%7 == 0 {
+		for i := range r.ids {
+			in := r.live(i)
+			if in == nil || in.R.State() != raft.Follower {
+				continue
+			}
+			_, lid := in.R.LeaderWithID()
+			term := in.R.CurrentTerm()
+			if lid == "" {
+				continue
+			}
+			w.Mu.Lock()
+			if real := w.O.LeaderOf(term); real != string(lid) {
+				w.ViolateLocked("C18", "R3", "C18/R3/follower-advertises-a-server-that-was-not-leader-of-its-term", "%s (term %d) names %s as leader; leader of term %d was %q", in.ID(), term, lid, term, real)
+			}
+			w.Mu.Unlock()
+		}
+	}
+	// C17/R1: futures resolve within the bound while the server runs
+	if now%50 == 0 {
+		bf := int64(r.futureBound() / time.Millisecond)
+		w.Mu.Lock()
+		for _, op := range r.Ops {
+			if op.Done || op.flagged || op.inst.DeadLocked() || now-op.InvokeMs < bf {
+				continue
+			}
+			op.flagged = true
+			st := op.inst.R.State()
+			rule, sig := "R1", fmt.Sprintf("C17/R1/%s-future-unresolved-on-running-server", opKind(op.Kind))
+			if st == raft.Shutdown {
+				rule, sig = "R3", fmt.Sprintf("C17/R3/%s-future-stranded-by-shutdown", opKind(op.Kind))
+			}
+			w.ViolateLocked("C17", rule, sig, "%s #%d on %s invoked at %d ms is unresolved %d ms later (server state %v, bound %d ms)", op.Kind, op.ID, op.Srv, op.InvokeMs, now-op.InvokeMs, st, bf)
+		}
+		w.Mu.Unlock()
+	}
+}
+
+func opKind(k string) string {
+	for i := 0; i < len(k); i++ {
+		if k[i] == ':' {
+			return k[i+1:] + "-after-shutdown"
+		}
+	}
+	return k
+}
+
+func (r *Runner) stillCut(id string) bool {
+	r.W.Mu.Lock()
+	defer r.W.Mu.Unlock()
+	for k, v := range r.cut {
+		if v && (k[0] == id || k[1] == id) {
+			return true
+		}
+	}
+	return false
+}
+
+func (r *Runner) faultSince(t int64) bool {
+	r.W.Mu.Lock()
+	defer r.W.Mu.Unlock()
+	return r.lastFaultMs > t
+}
+
+// ---------------------------------------------------------------------------
+// end-of-run profile rules (caller holds W.Mu)
+
+func (r *Runner) finalProfile() {
+	w := r.W
+	// C18/R1, R2: notifications alternate, match transitions, and the last one
+	// tells the truth at rest
+	for in, rec := range r.notif {
+		if in.NotifyCh == nil || in.R == nil {
+			continue
+		}
+		for i, v := range rec.vals {
+			want := i%2 == 0
+			if v != want {
+				w.ViolateLocked("C18", "R1", "C18/R1/notifications-do-not-alternate", "%s/%d NotifyCh delivered %v (sequence must alternate starting with true)", in.ID(), in.Gen, rec.vals)
+				break
+			}
+		}
+		gains, losses := 0, 0
+		was := false
+		for _, s := range in.States {
+			is := s.State == raft.Leader
+			if is && !was {
+				gains++
+			}
+			if !is && was {
+				losses++
+			}
+			was = is
+		}
+		got := len(rec.vals)
+		if in.DeadLocked() {
+			continue
+		}
+		if got > gains+losses || got < gains+losses-1 {
+			w.ViolateLocked("C18", "R1", "C18/R1/notification-count-differs-from-transitions", "%s/%d: %d leadership gains and %d losses observed, NotifyCh delivered %d values %v", in.ID(), in.Gen, gains, losses, got, rec.vals)
+		}
+		if gains+losses >= 3 {
+			r.Feat["notify:>=3-transitions"]++
+		}
+		if in.R.State() != raft.Shutdown && r.atRest && got > 0 {
+			isLeader := in.R.State() == raft.Leader
+			if rec.vals[got-1] != isLeader && got == gains+losses {
+				w.ViolateLocked("C18", "R2", "C18/R2/last-notification-disagrees-with-state-at-rest", "%s/%d at rest is %v but the last NotifyCh value is %v (%v)", in.ID(), in.Gen, in.R.State(), rec.vals[got-1], rec.vals)
+			}
+			select {
+			case v := <-in.R.LeaderCh():
+				if v != isLeader {
+					w.ViolateLocked("C18", "R2", "C18/R2/leaderch-does-not-hold-the-latest-transition", "%s/%d at rest is %v but LeaderCh holds %v", in.ID(), in.Gen, in.R.State(), v)
+				}
+			default:
+				if gains > 0 {
+					w.ViolateLocked("C18", "R2", "C18/R2/leaderch-empty-after-transitions", "%s/%d had %d leadership gains but LeaderCh (never read) is empty", in.ID(), in.Gen, gains)
+				}
+			}
+		}
+	}
+	// C17/R2: calls made after a completed shutdown
+	for _, op := range r.Ops {
+		if len(op.Kind) < 15 || op.Kind[:15] != "after-shutdown:" {
+			continue
+		}
+		name := op.Kind[15:]
+		if !op.Done {
+			continue // reported by the unresolved-future rule
+		}
+		if name == "GetConfiguration" {
+			continue // answered from a local copy, documented not to need the main loop
+		}
+		if op.err != raft.ErrRaftShutdown {
+			w.ViolateLocked("C17", "R2", "C17/R2/"+name+"-after-shutdown-does-not-report-shutdown", "%s on %s after Shutdown().Error() returned: %v (want ErrRaftShutdown)", name, op.Srv, op.err)
+		}
+	}
+	// C20/R1: the leader's FSM after a successful Restore is the supplied
+	// snapshot plus later entries only
+	for _, rr := range r.restores {
+		if !rr.op.Done || rr.op.err != nil || rr.op.inst.DeadLocked() {
+			continue
+		}
+		r.Feat["user-restore-ok"]++
+	}
+}
